@@ -5,6 +5,7 @@ package actor
 import (
 	"fmt"
 	"sort"
+	"strings"
 	"sync"
 	"testing"
 	"time"
@@ -25,10 +26,18 @@ type vfStreamCase struct {
 	Gap           time.Duration // pause between messages (0: burst); > 0 makes a steady stream
 	StopAfter     bool          // the sending system is stopped right after the last Tell returned: everything Told before must still arrive
 	FirstContacts int           // > 0: that many distinct addresses of B are contacted for the first time by 8 goroutines at once
+	// Unsendable > 0: every sender additionally Tells, in the middle of its burst, that many messages the sending side
+	// cannot put on the wire (alternately a 5 MiB payload that does not fit into a frame and a value of a type that is
+	// neither registered nor handled by a codec). The link stays up: every valid message - also those queued behind an
+	// unsendable one - is still delivered exactly once and in order; the unsendable ones are dead-lettered on the sender.
+	Unsendable int
 }
 
+// vfUnregistered is a message type the wire registry does not know and no codec handles.
+type vfUnregistered struct{ X int }
+
 func (c vfStreamCase) String() string {
-	return fmt.Sprintf("plan=%s burst=%d senders=%d sizes=%v back=%d asks=%d gap=%v stop-after-last-tell=%v first-contacts=%d", c.Plan, c.Burst, c.Senders, c.Sizes, c.Back, c.Asks, c.Gap, c.StopAfter, c.FirstContacts)
+	return fmt.Sprintf("plan=%s burst=%d senders=%d sizes=%v back=%d asks=%d gap=%v stop-after-last-tell=%v first-contacts=%d unsendable=%d", c.Plan, c.Burst, c.Senders, c.Sizes, c.Back, c.Asks, c.Gap, c.StopAfter, c.FirstContacts, c.Unsendable)
 }
 
 // vfCheckStream: the per-sender sequence monitor. lostOnlyIfLaterSeen: a gap counts as loss only if a later message
@@ -215,6 +224,15 @@ func vfRunStream(c vfStreamCase, seed uint64) (viols []vfViol, info string, inco
 		go func(s, n int) {
 			defer wg.Done()
 			for q := 1; q <= n; q++ {
+				if c.Unsendable > 0 && q == n/2+1 {
+					for u := 0; u < c.Unsendable; u++ {
+						if (u+s)%2 == 0 {
+							a.sys.Tell(toB, vfNewNetMsg(7000+s, u+1, 5<<20, false)) // cannot be framed
+						} else {
+							a.sys.Tell(toB, &vfUnregistered{X: u}) // cannot be encoded
+						}
+					}
+				}
 				a.sys.Tell(toB, vfNewNetMsg(s, q, c.Sizes[(q+s)%len(c.Sizes)], false))
 				if c.Gap > 0 {
 					time.Sleep(c.Gap)
@@ -282,8 +300,20 @@ func vfRunStream(c vfStreamCase, seed uint64) (viols []vfViol, info string, inco
 		if len(n.obs.decode) > 0 {
 			add("c11-decode-failed", "RemotingMessageDecodeFailedEvent", "%d decode failure(s) on a healthy link: %v", len(n.obs.decode), n.obs.decode[:1])
 		}
-		if len(n.obs.dl) > 0 {
-			add("c11-dead-letter", "DeathLetterEvent", "%d dead letter(s) on a healthy link: %v", len(n.obs.dl), n.obs.dl[:minInt(3, len(n.obs.dl))])
+		var dls []string
+		unsendable := 0
+		for _, d := range n.obs.dl {
+			if c.Unsendable > 0 && n == a && (strings.HasPrefix(d, "vfNetMsg#70") || strings.Contains(d, "vfUnregistered")) {
+				unsendable++ // the messages that cannot be put on the wire: reported on the sender, as they must be
+				continue
+			}
+			dls = append(dls, d)
+		}
+		if len(dls) > 0 {
+			add("c11-dead-letter", "DeathLetterEvent", "%d dead letter(s) for valid messages on a healthy link: %v", len(dls), dls[:minInt(3, len(dls))])
+		}
+		if n == a && c.Unsendable > 0 && unsendable != c.Unsendable*c.Senders {
+			add("c11-unsendable-not-reported", "DeathLetterEvent", "%d messages that cannot be put on the wire were Told, %d dead letters for them on the sender", c.Unsendable*c.Senders, unsendable)
 		}
 		n.obs.mu.Unlock()
 	}
@@ -329,6 +359,9 @@ func vfStreamCases(thorough bool) []vfStreamCase {
 		vfStreamCase{Plan: "asis", Burst: 1, Senders: 1, Sizes: []int{100}, StopAfter: true},
 		vfStreamCase{Plan: "asis", Burst: 500, Senders: 2, Sizes: []int{0, 100, 4096}, StopAfter: true},
 		vfStreamCase{Plan: "splits", Burst: 3000, Senders: 4, Sizes: []int{7, 64, 300}, StopAfter: true},
+		// messages that cannot be put on the wire in the middle of bursts: the valid ones around and behind them arrive
+		vfStreamCase{Plan: "asis", Burst: 400, Senders: 2, Sizes: []int{0, 100, 4096}, Unsendable: 1},
+		vfStreamCase{Plan: "splits", Burst: 1200, Senders: 4, Sizes: []int{7, 64, 300, 1 << 20}, Unsendable: 3, Back: 50},
 		// concurrent first contact: 8 goroutines start talking to a new address at the same moment, 150 addresses
 		vfStreamCase{Plan: "asis", FirstContacts: 150, Burst: 150 * 32, Senders: 8, Sizes: []int{16}},
 		vfStreamCase{Plan: "asis", FirstContacts: 150, Burst: 150*32 + 1, Senders: 8, Sizes: []int{16}},
@@ -351,7 +384,7 @@ func vfStreamCases(thorough bool) []vfStreamCase {
 }
 
 func TestVerif_remotestream(t *testing.T) {
-	R := verifrt.NewReport("remotestream", "pairs of real systems on loopback TCP, B reached through an in-harness proxy that never drops but re-segments the byte stream (as is / 1-byte writes / PRNG splits / coalesce-everything); bursts of 1..5 000 (thorough 20 000, plus a 26 s steady stream) with payloads 0 B .. 4 MiB-300 (the frame, not the payload, is limited to 4 MiB), 1-8 concurrent senders, traffic in both directions at once, concurrent Asks whose replies must carry the asker's id; 'Tell ... Tell; Stop' over an established connection (everything Told before Stop arrives); 2 x 150 fresh sending systems whose 8 goroutines contact the peer for the first time at the same moment; per-(sender) sequence/CRC monitor at the receiving actors (gap with a later message seen = loss; duplicate; reorder; checksum), event observers on both systems (decode failures, dead letters), completion awaited until 5 s without progress, stall-gated. non-trivial+distinct = distinct cases in which >= 2 messages crossed the proxy")
+	R := verifrt.NewReport("remotestream", "pairs of real systems on loopback TCP, B reached through an in-harness proxy that never drops but re-segments the byte stream (as is / 1-byte writes / PRNG splits / coalesce-everything); bursts of 1..5 000 (thorough 20 000, plus a 26 s steady stream) with payloads 0 B .. 4 MiB-300 (the frame, not the payload, is limited to 4 MiB), 1-8 concurrent senders, traffic in both directions at once, concurrent Asks whose replies must carry the asker's id; 'Tell ... Tell; Stop' over an established connection (everything Told before Stop arrives); messages that cannot be put on the wire (5 MiB payload, unregistered type) in the middle of bursts - the valid ones queued around them must arrive, the others are dead-lettered on the sender; 2 x 150 fresh sending systems whose 8 goroutines contact the peer for the first time at the same moment; per-(sender) sequence/CRC monitor at the receiving actors (gap with a later message seen = loss; duplicate; reorder; checksum), event observers on both systems (decode failures, dead letters), completion awaited until 5 s without progress, stall-gated. non-trivial+distinct = distinct cases in which >= 2 messages crossed the proxy")
 	defer R.Flush()
 	cases := vfStreamCases(verifrt.Thorough())
 	only := verifrt.EnvInt("VERIF_CASE", -1)
